@@ -243,6 +243,12 @@ func assemble(na datamodel.NodeAssembler, v val.V, p *Prog, depth int, foreign b
 	case val.Bool:
 		return na.AssignBool(v.B)
 	case val.Int:
+		if v.I >= 0 && p.Next(8) == 7 {
+			// a non-negative integer held by a UintNode (what the CBOR decoder produces for big
+			// values, and what callers may build themselves) is an integer node like any other
+			p.note("assignnode-uintnode")
+			return na.AssignNode(basicnode.NewUint(uint64(v.I)))
+		}
 		return na.AssignInt(v.I)
 	case val.Float:
 		return na.AssignFloat(v.F)
